@@ -106,6 +106,8 @@ def sites(fb, body):
                     yield {"kind": "intarith", "what_path": path, "what": "%s::%s" % (tr or path, f["name"]) if tr else path, "ty": recv, "loc": loc(span), "span": span,
                            "fn": body["path"], "key": "intarith|%s::%s|int-param" % (tr, f["name"]) if tr else "intarith|%s|int-param" % path}
                     continue
+            if f["name"] == "drain" and len(t["args"]) == 2 and ((t["args"][1].get("place") or {}).get("ty") or t["args"][1].get("ty") or "").endswith("RangeFull"):
+                continue        # drain(..) over the full range has no bound to violate
             if ext and (ext.get("doc_panics") or path in SUPPLEMENT) or path in SUPPLEMENT:
                 org = origin_of(body, defs, t["args"][0]) if t["args"] else ""
                 recv = st or ",".join(f.get("args", []))
